@@ -65,6 +65,9 @@ pub enum Instr {
 pub enum Stage {
     ThenReq(u32),
     ThenStream(u32),
+    /// `.then_stream(|x| request(n, x).then_stream(|y| stream(m, y)))`: the follow-up stream starts with a request
+    /// (extended fragment only: on a stream this goes through flatten_unordered)
+    ThenStreamReq(u32, u32),
     Map(i64),
 }
 
@@ -129,6 +132,7 @@ impl Stage {
         match self {
             Stage::ThenReq(n) => list(vec![atom("treq"), atom(n)]),
             Stage::ThenStream(n) => list(vec![atom("tstream"), atom(n)]),
+            Stage::ThenStreamReq(n, m) => list(vec![atom("tstreamr"), atom(n), atom(m)]),
             Stage::Map(k) => list(vec![atom("map"), atom(k)]),
         }
     }
@@ -213,6 +217,7 @@ pub fn parse_stage(s: &Sexp) -> Option<Stage> {
     Some(match s.form()? {
         ("treq", [n]) => Stage::ThenReq(n.num()?),
         ("tstream", [n]) => Stage::ThenStream(n.num()?),
+        ("tstreamr", [n, m]) => Stage::ThenStreamReq(n.num()?, m.num()?),
         ("map", [k]) => Stage::Map(k.num()?),
         _ => return None,
     })
@@ -494,6 +499,14 @@ fn build_chain<Ef: HEffect>(is_stream: bool, n: u32, v: i64, stages: &[Stage], t
             }
             (ChainState::Scalar(b), Stage::ThenStream(n)) => {
                 let nb = b.then_stream(move |x| sb::<Ef>(n, x));
+                ChainState::Streaming(StreamBuilder::new(move |ctx| nb.into_stream(ctx).boxed()))
+            }
+            (ChainState::Scalar(b), Stage::ThenStreamReq(n, m)) => {
+                let nb = b.then_stream(move |x| rb::<Ef>(n, x).then_stream(move |y| sb::<Ef>(m, y)));
+                ChainState::Streaming(StreamBuilder::new(move |ctx| nb.into_stream(ctx).boxed()))
+            }
+            (ChainState::Streaming(b), Stage::ThenStreamReq(n, m)) => {
+                let nb = b.then_stream(move |x| rb::<Ef>(n, x).then_stream(move |y| sb::<Ef>(m, y)));
                 ChainState::Streaming(StreamBuilder::new(move |ctx| nb.into_stream(ctx).boxed()))
             }
             (ChainState::Streaming(b), Stage::ThenReq(n)) => {
